@@ -82,6 +82,10 @@ def scene_ties(radi, src, recs, eps=1e-9):
     def tie(dirs, v):
         if dirs.shape[0] < 2:
             return False
+        if np.count_nonzero(v) == 1:
+            # axis-parallel difference: its norm and the normalised vector are exact in both
+            # implementations, so an exact tie is broken identically (first index)
+            return False
         d = np.sort(np.sum((dirs - v / np.linalg.norm(v)) ** 2, axis=-1))
         return bool(d[1] - d[0] < eps)
     V = radi.visibility_matrix
